@@ -25,6 +25,7 @@ RULE = (
     "oracle: entering raises within timeout+eps or yields a connection on which a probe request gets a terminal message; exactly one response per request id (type-strict id); server messages once and in order; "
     "after exit both HTTP clients are closed, the event-stream generator is closed and no task created by the case is pending; non-trivial = establishment other than the plain endpoint event, or |delta|<=20 ms race, "
     "or a cut inside a character/CRLF, or a non-normal exit; distinct = distinct case"
+    "; round 8: a second, unrelated SSE session in the same process (same request ids, never answered) closed at various moments of this one"
     "; added in rounds 6-7 of the seeded changes: server request ids drawn from the client's id pool; per-event spelling cycles; absolute-URL announcements with another origin"
 )
 ASSUMPTIONS = [
@@ -128,8 +129,17 @@ def check(case: Dict[str, Any]) -> Outcome:
     delay = est.get("delay", 0.0)
     expect_url = endpoint_bytes(est["kind"])[1] if will_announce else None
 
+    es2 = EventStream()
+
     async def handler(request: httpx.Request) -> httpx.Response:
         loop = asyncio.get_running_loop()
+        if request.url.host == "bystander.invalid":
+            # another server altogether, used by another session of the same process: announces its endpoint, acknowledges
+            # every POST with 202 and never answers
+            if request.method == "GET":
+                es2.feed(b"event: endpoint\ndata: /messages?session=bystander\n\n")
+                return httpx.Response(200, headers={"content-type": "text/event-stream"}, content=es2.gen())
+            return httpx.Response(202)
         if request.method == "GET":
             k = est["kind"]
             if est.get("get_delay"):
@@ -312,6 +322,21 @@ def check(case: Dict[str, Any]) -> Outcome:
                     raise
                 state["cancelled"] = True
 
+            btask = None
+            if case.get("bystander") is not None:
+                # a second, unrelated SSE session lives in the same process: it sends requests bearing the same ids to ITS server
+                # (never answered) and is closed while this case's session goes on.  Nothing about it may show in this session.
+                async def bystander():
+                    try:
+                        async with sse_client(SSEParameters(url="http://bystander.invalid", timeout=T)) as (_r2, w2):
+                            for rq in reqs:
+                                await w2.send(parse_message({"jsonrpc": "2.0", "id": rq["id"], "method": "tools/list", "params": {}}))
+                            await asyncio.sleep(case["bystander"])
+                    except Exception:  # noqa
+                        pass
+
+                btask = asyncio.ensure_future(bystander())
+                await asyncio.sleep(0.02)
             stask = asyncio.ensure_future(session())
             try:
                 if exit_path == "task-cancel":
@@ -328,6 +353,11 @@ def check(case: Dict[str, Any]) -> Outcome:
                 else:
                     stask.result()
             finally:
+                if btask is not None:
+                    await asyncio.wait([btask], timeout=3 * T + 30)
+                    if not btask.done():
+                        await kill_task(btask)
+                    es2.close()
                 if ctask is not None:
                     ctask.cancel()
                 for ft in feed_tasks:
@@ -359,7 +389,7 @@ def check(case: Dict[str, Any]) -> Outcome:
     race = any(r["mode"] in ("202-then-event", "event-then-202", "202-then-error-event", "error-event-then-202") and r.get("delta", 0) <= 0.02 for r in reqs)
     out.nontrivial = est["kind"] != "endpoint-event" or race or bool(cuts) or exit_path != "normal"
     collide = any(strict_eq(sm["wire"].get("id"), r["id"]) for sm in srv for r in reqs if "id" in sm["wire"])
-    out.classes = (f"est:{est['kind']}", f"exit:{exit_path}" + (":mid-request" if state.get("early_exit") and reqs else ""), "race" if race else "no-race", "chunked" if cuts else "unchunked",
+    out.classes = (("another-session-in-the-process",) if case.get("bystander") is not None else ()) + (f"est:{est['kind']}", f"exit:{exit_path}" + (":mid-request" if state.get("early_exit") and reqs else ""), "race" if race else "no-race", "chunked" if cuts else "unchunked",
                    "forms:" + ("typed-only" if set(forms) == {"typed"} else "mixed"), "server-request-id-equals-client-request-id" if collide else "ids-disjoint") + tuple(sorted({"mode:" + r["mode"] for r in reqs}))
 
     # ------------------------------------------------------------------ establishment
@@ -473,6 +503,8 @@ def cases(draw):
         case["cancel_at"] = draw(st.sampled_from([0.0, 0.005, 0.05, 0.31, 1.0, 2.6]))
     elif draw(st.booleans()):
         case["exit_at"] = draw(st.sampled_from([0.0, 0.005, 0.05, 0.31, 1.0, 2.6]))
+    if draw(st.integers(0, 4)) == 0:
+        case["bystander"] = draw(st.sampled_from([0.05, 0.2, 0.6, 1.0, 2.4, 5.0]))
     return case
 
 
@@ -503,6 +535,16 @@ def job_matrix(col: Collector, seed: int, tier: str, shard: int, nshards: int) -
                         elif exit_path.endswith("@"):
                             case["exit_at"] = [0.005, 0.05, 0.31][i % 3]
                         col.record(case, check(case))
+    # another SSE session of the same process (same request ids, never answered), closed at various moments of this one
+    for mode in MODES:
+        for rid in ("r-1", 7):
+            for dl, by in ((0.5, 0.2), (0.01, 0.2), (0.5, 1.0), (0.3, 5.0), (1.0, 0.05)):
+                i += 1
+                if i % nshards != shard:
+                    continue
+                case = {"est": {"kind": "endpoint-event"}, "timeout": 2.0, "requests": [{"id": rid, "mode": mode, "delta": dl}, {"id": "second", "mode": "202-then-event", "delta": 0.4}],
+                        "server_msgs": [{"dt": 0.1, "wire": {"jsonrpc": "2.0", "method": "notifications/message", "params": {"level": "info", "data": "x"}}}], "cuts": [], "exit": "normal", "crlf": False, "bystander": by}
+                col.record(case, check(case))
     # late response headers on the event stream x what follows
     for k in ("comments-forever", "empty-stream", "endpoint-event", "delayed", "status-500"):
         for gd in (0.3, 0.7, 1.5, 2.5):
